@@ -112,13 +112,16 @@ impl<'tcx> TyGenContext<'_, 'tcx> {
         let mut fields = vec![];
         let mut cb_structs_and_defs = vec![];
         for field in def.fields.iter() {
-            fields.push(self.gen_ty_decl(
+            let (field_ty, field_name) = self.gen_ty_decl(
                 &field.ty,
                 field.name.as_str(),
                 &mut decl_header,
                 None,
                 &mut cb_structs_and_defs, // for now this gets ignored, there are no callbacks in struct fields
-            ));
+            );
+            // Field names that are C/C++ keywords are escaped exactly like parameter names;
+            // the C++ backend already accesses the C struct through the escaped name.
+            fields.push((field_ty, self.formatter.fmt_identifier(field_name)));
         }
 
         StructTemplate {
